@@ -551,7 +551,11 @@ PROPS["C09"] = _dbg(
     "commands with arbitrary arguments (step, step into k incl. 0 and 65535, step out, continue, break add/remove at "
     "absolute/label/PC-offset locations incl. out-of-range ones, break list, print, registers, assembly, echo), ended by "
     "quit, exit or end of input; the same image is also run without the debugger and the two final observables compared "
-    "(verdict plain=same).",
+    "(verdict plain=same). One case in four is a TEXT-level session: the script reaches the real debugger as text "
+    "(through --command, through standard input, or split across both; `;` or newline separated; aliases, letter "
+    "case, number spellings, blank and invalid lines mixed in) and the driver derives the commands from the same text "
+    "with the command-language model (Cmd.session) before running the debugger model — the two models are tied "
+    "together end to end, and C14's transport independence is checked at the level of effects.",
     ["I8: with program input present the script ends the debugger itself (quit/exit), otherwise the debugger would read the program's input as commands",
      "transparency is claimed for scripts ending in quit / end of input; sessions containing `exit` end the program early by design and are only compared with the model"])
 PROPS["C10"] = _dbg(
